@@ -48,6 +48,9 @@ type c13Lookup struct {
 	Walk   []int  `json:"w,omitempty"`   // child selectors while walking down / name indices
 	Pfx    int    `json:"p,omitempty"`   // 0 canonical AML prefix bytes, 1 none (joined), 2 multi prefix always, 3 path minus its last segment
 	Raw    []byte `json:"raw,omitempty"` // mode raw: the expression; other modes: trailing garbage
+	// Dmg > 0: the first 1-4 bytes of one segment are overwritten with a dual/multi-name prefix
+	// byte (bits 0-1: count - 1, bit 2: which byte, bits 3..: segment)
+	Dmg int `json:"dmg,omitempty"`
 }
 
 type c13Op struct {
@@ -567,8 +570,22 @@ func (rn *c13Runner) buildExpr(l *c13Lookup) (int, []byte) {
 	case l.Pfx == 3:
 		e = append(e, 0x2f, byte(n+1))
 	}
+	base := len(e)
 	for _, s := range segs {
 		e = append(e, s[:]...)
+	}
+	if l.Dmg > 0 && len(segs) > 0 {
+		j := (l.Dmg >> 3) % len(segs)
+		if j == 0 && len(segs) > 1 && l.Dmg&0x100 == 0 {
+			j = len(segs) - 1 // mostly a segment behind a part of the path that resolves
+		}
+		b := byte(0x2e)
+		if l.Dmg&4 != 0 {
+			b = 0x2f
+		}
+		for i := 0; i <= l.Dmg&3; i++ {
+			e[base+amlNameLen*j+i] = b
+		}
 	}
 	e = append(e, l.Raw...)
 	return scope, e
@@ -857,6 +874,60 @@ func (rn *c13Runner) step(when string, i int, op c13Op) *vlib.Failure {
 		desc := fmt.Sprintf("%s: after detach(%s, %s)", when, rn.show(p), rn.show(x))
 		m.unlink(x)
 		return rn.check(desc)
+	case "defaults":
+		// CreateDefaultScopes in the middle of a history (a further root with the five predefined
+		// scopes, as for another table set): six objects, taken from the freed slots first
+		poolBefore, freeBefore := len(tree.objPool), m.nfree
+		if pc := vlib.Catch(func() { tree.CreateDefaultScopes(handle) }); pc.Panicked {
+			return vlib.Failf("%s: CreateDefaultScopes crashed: %v", when, pc)
+		}
+		reuse := freeBefore
+		if reuse > 6 {
+			reuse = 6
+		}
+		if want := poolBefore + 6 - reuse; len(tree.objPool) != want {
+			return vlib.Failf("%s: CreateDefaultScopes made the pool grow from %d to %d slots; %d freed slots were waiting for reuse, so %d slots were expected", when, poolBefore, len(tree.objPool), freeBefore, want)
+		}
+		for len(m.nodes) < len(tree.objPool) {
+			m.nodes = append(m.nodes, c13Node{})
+		}
+		var fresh []int
+		for i, o := range tree.objPool {
+			if !m.nodes[i].live && o.opcode != pOpIntFreedObject {
+				fresh = append(fresh, i)
+			}
+		}
+		if len(fresh) != 6 {
+			return vlib.Failf("%s: CreateDefaultScopes created %d objects (slots %v), want the root and five scopes", when, len(fresh), fresh)
+		}
+		root := -1
+		for _, i := range fresh {
+			o := tree.objPool[i]
+			m.nodes[i] = c13Node{live: true, named: true, name: o.name, opcode: o.opcode, handle: o.tableHandle, parent: -1, ptr: o}
+			if o.name == [amlNameLen]byte{'\\'} {
+				root = i
+			}
+		}
+		m.nfree -= reuse
+		if root < 0 {
+			return vlib.Failf("%s: CreateDefaultScopes created no object named \\", when)
+		}
+		wantNames := []string{"_GPE", "_PR_", "_SB_", "_SI_", "_TZ_"}
+		k := 0
+		for ci := tree.objPool[root].firstArgIndex; ci != InvalidIndex && k < 6; ci, k = tree.objPool[ci].nextSiblingIndex, k+1 {
+			if int(ci) >= len(m.nodes) || k >= 5 || string(tree.objPool[ci].name[:]) != wantNames[k] {
+				return vlib.Failf("%s: child %d of the new root is object %d, want the scope %s", when, k, ci, wantNames[c13Mod(k, 5)])
+			}
+			m.link(root, int(ci), k)
+		}
+		if k != 5 {
+			return vlib.Failf("%s: the new root has %d children, want 5", when, k)
+		}
+		res.bump("create:default-scopes-mid-history")
+		if reuse > 0 {
+			res.bump("create:default-scopes-reusing-freed-slots")
+		}
+		return rn.check(when + ": after CreateDefaultScopes")
 	case "detachagain":
 		// detach of an object that is not on any list (detached before, or never attached) from
 		// an object that has children: there is nothing to take out, nothing may change
@@ -993,7 +1064,7 @@ func (rn *c13Runner) childPos(parent, child int) string {
 // generators
 
 var c13OpKinds = func() []string {
-	w := map[string]int{"named": 10, "obj": 8, "add": 14, "chain": 1, "append": 14, "after": 10, "detach": 8, "detachagain": 3, "free": 9, "freebad": 2, "find": 24}
+	w := map[string]int{"named": 10, "obj": 8, "add": 14, "chain": 1, "append": 14, "after": 10, "detach": 8, "detachagain": 3, "defaults": 1, "free": 9, "freebad": 2, "find": 24}
 	var ks []string
 	for k := range w {
 		ks = append(ks, k)
@@ -1062,6 +1133,9 @@ func c13GenLookup(t *rapid.T) *c13Lookup {
 	}
 	if rapid.IntRange(0, 9).Draw(t, "garbage") == 0 {
 		l.Raw = rapid.SliceOfN(rapid.SampledFrom(c13RawBytes), 1, 3).Draw(t, "tail")
+	}
+	if rapid.IntRange(0, 11).Draw(t, "damaged") == 0 {
+		l.Dmg = rapid.IntRange(1, 1023).Draw(t, "dmg")
 	}
 	return l
 }
